@@ -12,6 +12,7 @@ pub enum AnyCase {
     Dimacs(crate::dimacs_stream::DimacsCase),
     Cli(crate::cli::CliCase),
     Proof(crate::proofcase::ProofCase),
+    Deep(crate::deep::DeepCase),
 }
 
 fn guarded(prop_panics_are_violations: bool, f: impl FnOnce() -> Outcome) -> Outcome {
@@ -41,6 +42,7 @@ impl AnyCase {
             AnyCase::Dimacs(c) => c.to_json(),
             AnyCase::Cli(c) => c.to_json(),
             AnyCase::Proof(c) => c.to_json(),
+            AnyCase::Deep(c) => c.to_json(),
         }
     }
     pub fn from_json(j: &J) -> AnyCase {
@@ -49,6 +51,7 @@ impl AnyCase {
             Some("dimacs") => AnyCase::Dimacs(crate::dimacs_stream::DimacsCase::from_json(j)),
             Some("cli") => AnyCase::Cli(crate::cli::CliCase::from_json(j)),
             Some("proof") => AnyCase::Proof(crate::proofcase::ProofCase::from_json(j)),
+            Some("deep") => AnyCase::Deep(crate::deep::DeepCase::from_json(j)),
             _ => AnyCase::Lib(Case::from_json(j)),
         }
     }
@@ -67,6 +70,7 @@ impl AnyCase {
             AnyCase::Dimacs(c) => guarded(true, || c.run()),
             AnyCase::Cli(c) => guarded(true, || c.run()),
             AnyCase::Proof(c) => guarded(true, || c.run()),
+            AnyCase::Deep(c) => guarded(true, || c.run()),
         }
     }
     pub fn candidates(&self) -> Vec<AnyCase> {
@@ -76,6 +80,7 @@ impl AnyCase {
             AnyCase::Dimacs(c) => c.candidates().into_iter().map(AnyCase::Dimacs).collect(),
             AnyCase::Cli(c) => c.candidates().into_iter().map(AnyCase::Cli).collect(),
             AnyCase::Proof(c) => c.candidates().into_iter().map(AnyCase::Proof).collect(),
+            AnyCase::Deep(c) => c.candidates().into_iter().map(AnyCase::Deep).collect(),
         }
     }
 }
